@@ -19,6 +19,7 @@ import Pastel.Lemmas.HueLipschitz
 import Pastel.Lemmas.Quantize
 import Pastel.Props.C03
 import Pastel.Lemmas.HsvMix
+import Pastel.Lemmas.HsvCone
 
 namespace Pastel.C02
 open Pastel
@@ -693,28 +694,6 @@ theorem oklabString_parses_back (c : Color Float) (spaces : Bool) (h : (c.alpha 
 
 /-! ### The `hsl()` round-trip bound as a theorem (exact arithmetic, all 2²⁴ colours at once) -/
 
-theorem real_hueValue_360 : hueValue (360 : ℝ) = 360 := by
-  unfold hueValue
-  split_ifs with hq
-  · simp only [real_lit]
-  · exfalso; apply hq; rw [real_feq]
-
-theorem fromHsla_sat_real (H S L a : ℝ) (h0 : 0 ≤ S) (h1 : S ≤ 1) : (fromHsla H S L a : Color ℝ).sat = S := by
-  unfold fromHsla clamp
-  sc_norm
-  rw [min_eq_right (by exact_mod_cast h1), max_eq_left (by exact_mod_cast h0)]
-
-theorem fromHsla_light_real (H S L a : ℝ) (h0 : 0 ≤ L) (h1 : L ≤ 1) : (fromHsla H S L a : Color ℝ).light = L := by
-  unfold fromHsla clamp
-  sc_norm
-  rw [min_eq_right (by exact_mod_cast h1), max_eq_left (by exact_mod_cast h0)]
-
-/-- `Hue::value` is the identity on `[0, 360]`. -/
-theorem real_hueValue_id_closed (h : ℝ) (h0 : 0 ≤ h) (h1 : h ≤ 360) : hueValue h = h := by
-  rcases eq_or_lt_of_le h1 with e | l
-  · rw [e]; exact real_hueValue_360
-  · exact real_hueValue_id h h0 l
-
 /-- `x` within `3` of the byte `r` (as naturals). -/
 def within3 (x r : UInt8) : Prop := r.toNat - 3 ≤ x.toNat ∧ x.toNat ≤ r.toNat + 3
 
@@ -856,49 +835,6 @@ theorem scaledRound_near (m : Nat) (e : Int) (prec : Nat) :
 
 /-! ### The `hsv()` round-trip bound as a theorem -/
 
-/-- `from_hsva` for saturation and value in `[0,1]`: the chroma of the colour built is `V·S` and its
-lightness is `V − V·S/2` (exact arithmetic). -/
-theorem fromHsva_chroma_real (H S V a : ℝ) (hS : 0 ≤ S ∧ S ≤ 1) (hV : 0 ≤ V ∧ V ≤ 1) :
-    (fromHsva H S V a : Color ℝ).light = V * (1 - S / 2) ∧
-    (0 ≤ (fromHsva H S V a : Color ℝ).sat ∧ (fromHsva H S V a : Color ℝ).sat ≤ 1) ∧
-    (1 - |2 * (fromHsva H S V a : Color ℝ).light - 1|) * (fromHsva H S V a : Color ℝ).sat = V * S := by
-  unfold fromHsva clamp
-  sc_norm
-  push_cast
-  have hl0 : 0 ≤ V * (1 - S / 2) := mul_nonneg hV.1 (by linarith [hS.2])
-  have hl1 : V * (1 - S / 2) ≤ 1 := by nlinarith [hS.1, hS.2, hV.1, hV.2]
-  rw [min_eq_right hl1, max_eq_left hl0]
-  refine ⟨rfl, ?_, ?_⟩
-  · exact ⟨le_max_right _ _, max_le (min_le_left _ _) (by norm_num)⟩
-  · rw [one_sub_abs _ hl0 hl1]
-    by_cases hin : 0 < V * (1 - S / 2) ∧ V * (1 - S / 2) < 1
-    · rw [if_pos hin]
-      have hm : 0 < min (V * (1 - S / 2)) (1 - V * (1 - S / 2)) := lt_min hin.1 (by linarith [hin.2])
-      have hq0 : 0 ≤ (V - V * (1 - S / 2)) / min (V * (1 - S / 2)) (1 - V * (1 - S / 2)) :=
-        div_nonneg (by nlinarith [hS.1, hV.1]) hm.le
-      have hq1 : (V - V * (1 - S / 2)) / min (V * (1 - S / 2)) (1 - V * (1 - S / 2)) ≤ 1 := by
-        rw [div_le_one hm]
-        apply le_min <;> nlinarith [hS.1, hS.2, hV.1, hV.2]
-      rw [min_eq_right hq1, max_eq_left hq0]
-      generalize min (V * (1 - S / 2)) (1 - V * (1 - S / 2)) = mm at hm ⊢
-      have hne : mm ≠ 0 := hm.ne'
-      have e : 2 * mm * ((V - V * (1 - S / 2)) / mm) = 2 * (V - V * (1 - S / 2)) := by
-        rw [show 2 * mm * ((V - V * (1 - S / 2)) / mm) = 2 * (V - V * (1 - S / 2)) * (mm / mm) by ring, div_self hne, mul_one]
-      rw [e]; ring
-    · rw [if_neg hin]
-      norm_num
-      -- the lightness is 0 or 1: then V·S = 0
-      rcases not_and_or.mp hin with h | h
-      · have hz : V * (1 - S / 2) = 0 := le_antisymm (not_lt.mp h) hl0
-        have : V = 0 := by
-          rcases mul_eq_zero.mp hz with h' | h'
-          · exact h'
-          · exfalso; linarith [hS.2]
-        left; exact this
-      · have h1 : V * (1 - S / 2) = 1 := le_antisymm hl1 (not_lt.mp h)
-        have hS0 : S = 0 := by nlinarith [hS.1, hS.2, hV.1, hV.2]
-        right; exact hS0
-
 theorem byte_within3' (v : ℝ) (r : UInt8) (hv0 : 0 ≤ v) (hv1 : v ≤ 1) (h : |v - chan r| ≤ 3 / 255) :
     within3 (Sc.toU8 (Sc.round (255.0 * v : ℝ))) r := by
   rw [abs_le] at h
@@ -945,19 +881,6 @@ theorem hsv_chan_diff (k k' S S' V V' : ℝ) (hk : 0 ≤ k ∧ k ≤ 1) (hS : 0 
   have h2 : |k - 1| * |V' * S' - V * S| ≤ 1 * (|V' - V| + |S' - S|) :=
     mul_le_mul hk2 hC (abs_nonneg _) (by norm_num)
   linarith [abs_nonneg (V' - V)]
-
-/-- The float channels of `from_hsva(H, S, V, a)` for `H ∈ [0,360]`, `S, V ∈ [0,1]`, in HSV terms. -/
-theorem fromHsva_channels (H S V a : ℝ) (hH : 0 ≤ H ∧ H ≤ 360) (hS : 0 ≤ S ∧ S ≤ 1) (hV : 0 ≤ V ∧ V ≤ 1) :
-    (toRgbaFloat (fromHsva H S V a : Color ℝ)).x = kR (H / 60) * (V * S) + (V - V * S) ∧
-    (toRgbaFloat (fromHsva H S V a : Color ℝ)).y = kG (H / 60) * (V * S) + (V - V * S) ∧
-    (toRgbaFloat (fromHsva H S V a : Color ℝ)).z = kB (H / 60) * (V * S) + (V - V * S) := by
-  obtain ⟨hl, _, hc⟩ := fromHsva_chroma_real H S V a hS hV
-  have hhue : hueValue (fromHsva H S V a : Color ℝ).hue = H := by
-    rw [fromHsva_hue_real]; exact real_hueValue_id_closed H hH.1 hH.2
-  have cl := toRgbaFloat_closed (fromHsva H S V a : Color ℝ)
-  rw [hhue, hc] at cl
-  rw [cl, hl]
-  refine ⟨?_, ?_, ?_⟩ <;> simp only [] <;> ring
 
 /-- **The `hsv()` round trip stays within 3 per channel, for all 2²⁴ colours at once** (exact
 arithmetic): a hue within half a degree of the reported HSV hue, saturation and value within 0.05 %
